@@ -114,6 +114,16 @@ def run(ck, prog, ctx):
             def half(op):
                 out = set()
                 for a in pvc.of_operand(b, op):
+                    # `&src[..i]` / `&src[i..]` with i the not-found position
+                    if a[0] == "call" and a[3] == b.id and re.search(r"Index<std::ops::Range(To|From)<usize>>", a[2] or ""):
+                        it2 = b.blocks[a[4]].term
+                        rl = it2.args[1].place.local if len(it2.args) > 1 and it2.args[1].place is not None else None
+                        for k3, p3, d3 in pvc.defs(b).get(rl, []) if rl is not None else []:
+                            if k3 == "assign" and d3.rv["k"] == "agg" and re.search(r"Range(To|From)$", d3.rv.get("adt", "")):
+                                idx_ok = any(x[0] == "call" and x[4] == sbi and any(e[0] == "dc" and e[1] == "Err" for e in x[5]) for x in pvc.of_operand(b, d3.rv["ops"][0]))
+                                same = is_ids_place_atoms(pvc.of_operand(b, it2.args[0])) and params_of(pvc.of_operand(b, it2.args[0]), b.id) == params_of(src, b.id)
+                                if idx_ok and same:
+                                    out.add("0" if d3.rv["adt"].endswith("RangeTo") else "1")
                     if a[0] == "call" and a[3] == b.id and a[1].endswith("::split_at"):
                         st2 = b.blocks[a[4]].term
                         idx_ok = any(x[0] == "call" and x[4] == sbi and any(e[0] == "dc" and e[1] == "Err" for e in x[5]) for x in pvc.of_operand(b, st2.args[1]))
@@ -134,6 +144,107 @@ def run(ck, prog, ctx):
                 return "order"
             return False
         return None
+
+    def sorted_append_guard(b, bi, val_op):
+        """the unchecked `push(x)` at block bi is reached only when the vector is empty or its LAST id is strictly below x:
+        True / False (a guard on `last` exists but is not strict, or tests something else) / None (no such guard).  Recognised spellings:
+        `match ids.last() { None => .., Some(l) => *l < x }` (directly or through a bool), `ids.last().map_or(true, |l| *l < x)`, `is_none_or`,
+        `ids.is_empty() || ..`"""
+        pvc = _pvc
+        x_src = params_of(pvc.of_operand(b, val_op), b.id)
+
+        def is_last(op_local):
+            for kind_, pos_, d_ in pvc.defs(b).get(op_local, []):
+                if kind_ == "call" and d_.callee.method == "last" and d_.args and is_ids_place_atoms(pvc.of_operand(b, d_.args[0])):
+                    return True
+            return False
+
+        def strict_below(body_, t_, elem_pred, x_pred):
+            """call `a < x` / `x > a` (PartialOrd on ids): strictly, element on the smaller side"""
+            if t_.callee.trait not in ("std::cmp::PartialOrd",) or len(t_.args) != 2:
+                return None
+            m_ = t_.callee.method
+            if m_ == "lt":
+                return elem_pred(t_.args[0]) and x_pred(t_.args[1])
+            if m_ == "gt":
+                return elem_pred(t_.args[1]) and x_pred(t_.args[0])
+            return False if m_ in ("le", "ge") else None
+
+        def payload_of_last(op):
+            if op.place is None:
+                return False
+            for a in pvc.of_operand(b, op):
+                if a[0] == "call" and a[3] == b.id and a[1].endswith("]>::last"):
+                    return True
+            return False
+
+        def is_x(op):
+            return bool(x_src) and params_of(pvc.of_operand(b, op), b.id) == x_src and not payload_of_last(op)
+
+        verdicts = []
+
+        def judge_bool_local(l, depth=0):
+            """every definition of the bool local is `true under None-of-last`, a strict comparison, or a map_or(true, strict)"""
+            out = []
+            for kind_, pos_, d_ in pvc.defs(b).get(l, []):
+                if kind_ == "assign":
+                    rv = d_.rv
+                    if rv["k"] == "use" and rv["op"].kind == "const":
+                        tv = rv["op"].const.get("val") == "true"
+                        # constant true: only on the None arm of last()
+                        okc = False
+                        for sb in sorted(b.reach):
+                            x_ = b.blocks[sb].term
+                            if x_.k == "switch" and x_.discr.place is not None:
+                                for k2, p2, d2 in pvc.defs(b).get(x_.discr.place.local, []):
+                                    if k2 == "assign" and d2.rv["k"] == "discr" and is_last(d2.rv["place"].local):
+                                        none_t = dict(x_.targets).get(0)
+                                        if none_t is not None and b.edge_dominates((sb, none_t), pos_[0]):
+                                            okc = True
+                        out.append(okc if tv else True)
+                    elif rv["k"] == "use" and rv["op"].place is not None and rv["op"].place.is_local() and depth < 4:
+                        out += judge_bool_local(rv["op"].place.local, depth + 1)
+                    else:
+                        out.append(None)
+                else:
+                    t_ = d_
+                    sb_ = strict_below(b, t_, payload_of_last, is_x)
+                    if sb_ is not None:
+                        out.append(sb_)
+                    elif t_.callee.method in ("map_or", "is_none_or") and t_.args and t_.args[0].place is not None and is_last(t_.args[0].place.local):
+                        dflt_ok = t_.callee.method == "is_none_or" or (len(t_.args) == 3 and t_.args[1].kind == "const" and t_.args[1].const.get("val") == "true")
+                        cb_ = prog.bodies.get(pv.closure_of_operand(b, t_.args[-1]) or "")
+                        okc = False
+                        if cb_ is not None and not cb_.natural_loops():
+                            pvb = Prov(prog, inline=False, mutflow=False, bind_closures=False)
+                            for cbi_, ct_ in cb_.calls():
+                                if ct_.dest is not None and ct_.dest.is_local() and ct_.dest.local == 0:
+                                    r_ = strict_below(cb_, ct_, lambda o: params_of(pvb.of_operand(cb_, o), cb_.id) == {2}, lambda o: params_of(pv.of_operand(cb_, o), b.id) == x_src and 2 not in params_of(pvb.of_operand(cb_, o), cb_.id))
+                                    okc = bool(r_)
+                        out.append(dflt_ok and okc)
+                    elif t_.callee.method == "is_empty" and t_.args and is_ids_place_atoms(pvc.of_operand(b, t_.args[0])):
+                        out.append(True)
+                    else:
+                        out.append(None)
+            return out
+        for sb in sorted(b.reach):
+            x_ = b.blocks[sb].term
+            if x_.k != "switch" or x_.discr.place is None or not x_.discr.place.is_local():
+                continue
+            tt = [tg for v, tg in x_.targets if v != 0] or ([x_.otherwise] if [v for v, _ in x_.targets] == [0] else [])
+            if x_.discr_ty == "bool" and tt and b.edge_dominates((sb, tt[0]), bi):
+                js = judge_bool_local(x_.discr.place.local)
+                if js and any(j is not None for j in js):
+                    verdicts.append(all(j is True for j in js))
+            # directly under the None arm of `last()`
+            for k2, p2, d2 in pvc.defs(b).get(x_.discr.place.local, []):
+                if k2 == "assign" and d2.rv["k"] == "discr" and is_last(d2.rv["place"].local):
+                    none_t = dict(x_.targets).get(0)
+                    if none_t is not None and b.edge_dominates((sb, none_t), bi):
+                        verdicts.append(True)
+        if not verdicts:
+            return None
+        return all(verdicts)
 
     # a private helper whose only unchecked push is a complete insertion-at-the-searched-position (`with_id`) checks order and uniqueness itself:
     # its callers are not sinks, the helper is judged as a sink of its own
@@ -156,6 +267,13 @@ def run(ck, prog, ctx):
                 ck.ob("TAINT", "append/%s/%d" % (base, i), True, "%s copies the ids below the searched position, then the new id, then the ids above it (position = the not-found result of a binary search for that id)" % b.short, where=b.where(t.line))
             else:
                 ck.undecided("TAINT", "append/%s/%d" % (base, i), "%s appends an id under the not-found arm of a binary search, in a shape that is not recognised" % b.short, where=b.where(t.line))
+            continue
+        sg = sorted_append_guard(b, bi, t.args[vi]) if t.callee.method == "push" else None
+        if sg is not None:
+            base = b.short
+            i = cnt.get(base, 0)
+            cnt[base] = i + 1
+            ck.ob("TAINT", "append/%s/%d" % (base, i), sg, "%s appends an id at the end %s" % (b.short, "only when the vector is empty or its last id is strictly smaller (sorted-input fast path)" if sg else "under a test of the last id that is NOT `last < id`: an id equal to (or below) the last one is stored out of order / twice"), where=b.where(t.line))
             continue
         val = pvn.of_operand(b, t.args[vi])
         iterated = [a for a in val if a[0] == "call" and a[1].endswith("::next") and ("group::Iter" in a[2] or "slice::Iter<'_, term::hpotermid::HpoTermId>" in a[2])]
@@ -257,6 +375,26 @@ def run(ck, prog, ctx):
             if verdict is None and is_tail:
                 ck.undecided("TAINT", "bulk-append/%s" % b.short, "%s appends a sub-slice selected by a running index (tail of a merge?): whether it sorts behind the receiver is not decided" % b.short, where=b.where(t.line))
                 continue
+            if verdict is None:
+                # some ORDER comparison between ids decides whether this append happens (through a bool, a tuple match, indices `v[v.len() - 1] < w[0]`):
+                # not a shape this rule reads, but not "no ordering test" either
+                ordered = False
+                for sb in sorted(b.reach):
+                    x_ = b.blocks[sb].term
+                    if x_.k != "switch" or not any(b.edge_dominates((sb, tg_), bi) for tg_ in x_.successors()):
+                        continue
+                    dat = pvn.of_operand(b, x_.discr)
+                    if any(a[0] == "call" and a[3] == b.id and re.search(r"std::cmp::(PartialOrd|Ord)>::(lt|le|gt|ge|cmp)$", a[2] or a[1]) for a in dat) or any(a[0] == "op" and a[1] in ("Lt", "Le", "Gt", "Ge") for a in dat):
+                        ordered = True
+                    for a in dat:
+                        if a[0] == "call" and a[3] == b.id and a[1].rsplit("::", 1)[-1] in ("map_or", "is_none_or", "is_some_and", "map_or_else"):
+                            ct_ = b.blocks[a[4]].term
+                            cb_ = prog.bodies.get(pv.closure_of_operand(b, ct_.args[-1]) or "")
+                            if cb_ is not None and any(x2.callee.trait in ("std::cmp::PartialOrd", "std::cmp::Ord") for _, x2 in cb_.calls()):
+                                ordered = True
+                if ordered:
+                    ck.undecided("TAINT", "bulk-append/%s" % b.short, "%s appends a whole id vector to a non-empty group under an order comparison whose shape is not recognised (expected `last < first`)" % b.short, where=b.where(t.line))
+                    continue
             ck.ob("TAINT", "bulk-append/%s" % b.short, bool(verdict), "%s appends a whole id vector to a non-empty group, %s" % (b.short, how), where=b.where(t.line))
     # whole-vector constructions: `HpoGroup { ids: <something built from caller data> }` is only sorted and duplicate free
     # if the data was sorted and THEN deduplicated before it is stored
@@ -398,6 +536,9 @@ def run(ck, prog, ctx):
                 bi, x = sw
                 vals = [v for v, _ in x.targets]
                 true_t = [tg for v, tg in x.targets if v == 1] or ([x.otherwise] if vals == [0] else [])
+                if tt.callee.method == "binary_search" and x.discr_ty != "bool":
+                    # a `match` on the search result itself: `Ok` (found) is discriminant 0
+                    true_t = [tg for v, tg in x.targets if v == 0]
                 negated = any(a[0] == "op" and a[1] == "Not" for a in pvn.of_operand(band, x.discr))
                 for n, site in enumerate([(s[1], s[2]) for s in app] + checked_inserts):
                     abi, at_ = site
@@ -517,6 +658,81 @@ def run(ck, prog, ctx):
             ck.ob("MERGE", key, ok, "`%s` answers with a copy of `%s` when `%s` is empty%s" % (sym, ob_.local_name(p_ret), "/".join(ob_.local_name(q) for q in dom), "" if ok else (": the union of a non-empty `%s` with an empty `%s` must be `%s`" % (ob_.local_name(3 - p_ret), ob_.local_name(p_ret), ob_.local_name(3 - p_ret)) if want_other else ": the intersection is not `%s` just because the other operand is empty" % ob_.local_name(p_ret))), where=ob_.where(t.line))
     ck.extra["set-operator shortcuts examined"] = n_short
 
+    # ------------------------------------------------------------------ SHORTCUT (ii): a way round the scan of `&` guarded by a range comparison
+    # `a & b` may skip its scan when the id ranges of the two sorted operands are DISJOINT:  last(x) < first(y)  (strictly).  With `<=` the
+    # boundary id that both share is dropped.  Only comparisons of first()/last() of the operands are classified; the emptiness shortcuts are
+    # the rule above; anything else that leads round the scan is undecided.
+    from engines import for_loops as _fl, user_root_locals as _url
+    ob_ = prog.body("<&%s as std::ops::BitAnd>::bitand" % G)
+    if ob_ is not None:
+        loops_ = [lp for lp in _fl(ob_)]
+        heads = {lp["header"] for lp in loops_}
+
+        def recv_root(op, depth=0):
+            """user variable the slice that `first()` / `last()` is taken of belongs to, through deref / as_slice / field borrows"""
+            if op.place is None:
+                return set()
+            out, work, seen_ = set(), [op.place.local], set()
+            while work:
+                l = work.pop()
+                if l in seen_:
+                    continue
+                seen_.add(l)
+                if l in ob_.debug:
+                    out.add(l)
+                    continue
+                for k_, p_, d_ in pvn.defs(ob_).get(l, []):
+                    if k_ == "call" and d_.callee.method in ("deref", "as_slice", "as_ref", "borrow") and d_.args and d_.args[0].place is not None:
+                        work.append(d_.args[0].place.local)
+                    elif k_ == "assign" and d_.rv["k"] == "ref":
+                        work.append(d_.rv["place"].local)
+                    elif k_ == "assign" and d_.rv["k"] == "use" and d_.rv["op"].place is not None:
+                        work.append(d_.rv["op"].place.local)
+            return out
+
+        def end_of(op):
+            """('first'|'last', root locals) when the operand is the Option handed out by first() / last() of a slice"""
+            for a in pvn.of_operand(ob_, op):
+                if a[0] == "call" and a[3] == ob_.id and (a[1].endswith("]>::first") or a[1].endswith("]>::last") or a[1].endswith("::first") or a[1].endswith("::last")):
+                    ct = ob_.blocks[a[4]].term
+                    return ct.callee.method, frozenset(recv_root(ct.args[0])) if ct.args else frozenset()
+            return None
+        n_by = 0
+        for sbi in sorted(ob_.reach):
+            x = ob_.blocks[sbi].term
+            if x.k != "switch" or not heads or not any(ob_.dominates(sbi, h) for h in heads):
+                continue
+            for v, tg in x.targets + ([(None, x.otherwise)] if getattr(x, "otherwise", None) is not None else []):
+                if any(ob_.can_reach(tg, h) for h in heads):
+                    continue
+                # (sbi -> tg) leads to the return without the scan
+                for cbi, ct in ob_.calls():
+                    if ct.callee.method not in ("lt", "le", "gt", "ge") or len(ct.args) != 2 or not ob_.dominates(cbi, sbi):
+                        continue
+                    pos = positive_edges(ob_, pvn, cbi)
+                    allsw = [(sb2, t2) for sb2 in sorted(ob_.reach) if ob_.blocks[sb2].term.k == "switch" for _, t2 in ob_.blocks[sb2].term.targets]
+                    if not any(e[0] == sbi for e in pos) and not any(a[0] == "call" and a[3] == ob_.id and a[4] == cbi for a in pvn.of_operand(ob_, x.discr)):
+                        continue
+                    holds = (sbi, tg) in pos  # the bypass is taken when the comparison is TRUE
+                    l_, r_ = end_of(ct.args[0]), end_of(ct.args[1])
+                    n_by += 1
+                    key = "shortcut/bitand/range/%d" % n_by
+                    if l_ is None or r_ is None or not l_[1] or not r_[1]:
+                        ck.undecided("MERGE", key, "`&` leaves without its scan under a comparison whose operands are not first()/last() of the operands", where=ob_.where(ct.line))
+                        continue
+                    m_ = ct.callee.method
+                    # normalise to  A <rel> B  that holds on the bypass
+                    rel = {("lt", True): "<", ("le", True): "<=", ("gt", True): ">", ("ge", True): ">=", ("lt", False): ">=", ("le", False): ">", ("gt", False): "<=", ("ge", False): "<"}[(m_, holds)]
+                    if rel in (">", ">="):
+                        l_, r_ = r_, l_
+                        rel = "<" if rel == ">" else "<="
+                    disjoint = l_[0] == "last" and r_[0] == "first" and l_[1] != r_[1]
+                    if not disjoint:
+                        ck.ob("MERGE", key, False, "`&` leaves without its scan when %s(%s) %s %s(%s): that is not the disjointness of two sorted id ranges (last(x) < first(y)); common ids are dropped" % (l_[0], "/".join(ob_.local_name(q) for q in sorted(l_[1])), rel, r_[0], "/".join(ob_.local_name(q) for q in sorted(r_[1]))), where=ob_.where(ct.line))
+                    else:
+                        ck.ob("MERGE", key, rel == "<", "`&` leaves without its scan when last(%s) %s first(%s)%s" % ("/".join(ob_.local_name(q) for q in sorted(l_[1])), rel, "/".join(ob_.local_name(q) for q in sorted(r_[1])), "" if rel == "<" else ": with `<=` an id that is the last of one operand AND the first of the other is in both, yet the result is empty"), where=ob_.where(ct.line))
+        ck.extra["range shortcuts of `&` examined"] = n_by
+
     # ------------------------------------------------------------------ ROLE: ancestor queries
     T = "term::hpoterm::HpoTerm::<'a>::"
 
@@ -594,7 +810,9 @@ def run(ck, prog, ctx):
         ck.ob("ROLE", name + "/operands", ok, "%s operates on (%s, %s)%s" % (name, sorted(b.local_name(p) for p in p0), sorted(b.local_name(p) for p in p1), "" if ok else ": not one set of each term"), where=b.where(t.line))
         okf = "all_parents" in f0 and "all_parents" in f1 and "parents" not in f0 and "parents" not in f1 and "children" not in (f0 | f1)
         ck.ob("ROLE", name + "/closure", okf, "%s reads %s / %s (expected the closure sets `all_parents` of both terms)" % (name, sorted(f0), sorted(f1)), where=b.where(t.line))
-        if need_ids is True:
+        if need_ids is True and not ("id" in f0 and "id" in f1) and any(t2.callee.method == "insert" and len(t2.args) == 2 and "id" in field_names(pv.of_operand(b, t2.args[1]), "HpoTerm") for _, t2 in b.calls()):
+            ck.undecided("ROLE", name + "/ids", "%s intersects the exclusive sets and inserts the terms' own ids afterwards (under membership tests): the distributive form is not evaluated" % name, where=b.where(t.line))
+        elif need_ids is True:
             ck.ob("ROLE", name + "/ids", "id" in f0 and "id" in f1, "%s adds %s (expected both terms' own ids)" % (name, sorted((f0 | f1) & {"id"}) or "no id"), where=b.where(t.line))
         elif need_ids is False:
             ck.ob("ROLE", name + "/ids", "id" not in f0 and "id" not in f1, "%s %s the terms' own ids" % (name, "does not add" if "id" not in (f0 | f1) else "ADDS"), where=b.where(t.line))
